@@ -134,8 +134,12 @@ fn run_property(id: &str, tier: &Tier, known: &Known) -> i32 {
     if reg.stats.evaluations > 0 || reg.harness_error.is_some() {
         results.push(reg);
     }
-    if id == "C19" || id == "C05" {
-        let pid: &'static str = if id == "C19" { "C19" } else { "C05" };
+    if id == "C19" || id == "C05" || id == "C20" {
+        let pid: &'static str = match id {
+            "C19" => "C19",
+            "C20" => "C20",
+            _ => "C05",
+        };
         results.push(vcheck::p_builder::run_external(pid, tier.quick, tier.seed));
     }
     for s in &subs {
@@ -169,8 +173,12 @@ fn replay(path: &str) -> i32 {
     };
     let check = v["check"].as_str().unwrap_or("").to_string();
     let property = v["property"].as_str().unwrap_or("").to_string();
-    if check == "c19-processes" || check == "c05-nopar" {
-        let pid: &'static str = if check == "c19-processes" { "C19" } else { "C05" };
+    if check == "c19-processes" || check == "c05-nopar" || check == "c20-nopar" {
+        let pid: &'static str = match check.as_str() {
+            "c19-processes" => "C19",
+            "c20-nopar" => "C20",
+            _ => "C05",
+        };
         return match vcheck::p_builder::replay_external(pid, &v["case"]) {
             Err(e) => {
                 eprintln!("INCONCLUSIVE (harness error): {}", e);
